@@ -88,7 +88,14 @@ func (pw *packetWriter) Write(p []byte) (n int, err error) {
 func (pw *packetWriter) ReadFrom(r io.Reader) (n int64, err error) {
 	buf := pw.pkt[:]
 	for {
+		// A reader may return a packet in several pieces:
+		// fill the packet buffer before looking at it.
 		nr, er := r.Read(buf)
+		for nr < PacketSize && er == nil {
+			var m int
+			m, er = r.Read(buf[nr:])
+			nr += m
+		}
 		if nr == PacketSize {
 			nw, ew := pw.WritePacket(&pw.pkt)
 			if nw > 0 {
